@@ -223,6 +223,17 @@ func (env *SpecEnv) withState(st *State) *SpecEnv {
 }
 
 func specSort(ty string, env *SpecEnv) (*Sort, types.Type, error) {
+	if strings.HasPrefix(ty, "go:") {
+		// a Go type expression taken literally (e.g. "go:map[string]any": the Go map type, not a ghost map)
+		if env != nil && env.fn != nil && env.fn.Pkg != nil {
+			tv, err := types.Eval(env.f.eng.prog.Fset, env.fn.Pkg.Pkg, env.fn.Pos(), ty[3:])
+			if err == nil && tv.Type != nil {
+				return sortOf(tv.Type), tv.Type, nil
+			}
+			return nil, nil, fmt.Errorf("go type %q: %v", ty[3:], err)
+		}
+		return nil, nil, fmt.Errorf("go type %q outside a function", ty[3:])
+	}
 	switch ty {
 	case "int", "ref", "iface", "time", "int64", "error":
 		var gt types.Type
